@@ -264,6 +264,8 @@ CHECKS = {
 }
 # what later rounds of seeded changes added to the generated spaces (DESIGN.md sections 11.4b-11.4e)
 LATER = {
+ "C07": "Proxies told to retry (1 and 2 retries) call methods that themselves raise the errors a proxy retries on.",
+ "C19": "An accepted uri that cannot be hashed counts as having no equal hash; longer PYROMETA tag lists are written in several orders.",
  "C02": "A run-time change pass replaces or shadows a served method after the daemon has cached the class; two clients fetch the metadata of a fresh class at once.",
  "C04": "Tags also include class dicts and names of other modules' classes under Pyro5.errors; proxy-valued members rotate through every slot (args, attributes, the 'args' attribute, short states, every position of a uri state of each protocol).",
  "C05": "Items include a complete valid message followed at once by a reset (bytes stay readable, every answer fails), also against a thread-pool server whose workers are all busy.",
@@ -316,7 +318,7 @@ def main():
                      "kind_free_text": "explicit TLA+ specifications (specs/) checked with TLC; TLC-generated behaviours replayed into the real Pyro5 code "
                                        "under a deterministic in-memory transport / thread scheduler; recorded traces validated by TLC in batches"}],
         "checks": checks,
-        "notes": "Specification modules beyond the listed properties (DESIGN.md section 12: E01 auto-cleaner, E02 proxy life cycle, E03 name resolution, E04 daemon life cycle, E05 oneway calls, E06 the client's view through a proxy) run as ./check E01 ... ./check E06 with the same contract; they are not claims. Exit codes: 0 held, 1 VIOLATION, 2 machinery failure. Genuine defects repaired are listed in known_findings.json (fixed:), unrepaired ones under known.",
+        "notes": "Specification modules beyond the listed properties (DESIGN.md section 12: E01 auto-cleaner, E02 proxy life cycle, E03 name resolution, E04 daemon life cycle, E05 oneway calls, E06 the client's view through a proxy, E07 serialized blobs) run as ./check E01 ... ./check E07 with the same contract; they are not claims. Exit codes: 0 held, 1 VIOLATION, 2 machinery failure. Genuine defects repaired are listed in known_findings.json (fixed:), unrepaired ones under known.",
         "not_applicable": [{"property_id": p, "reason": NOT_YET.get(p, "check not built yet in this round (planned, see DESIGN.md section 6)")} for p in ALL if p not in CHECKS],
     }
     with open(os.path.join(HERE, "MANIFEST.json"), "w") as f:
